@@ -137,7 +137,7 @@ struct Final {
     result: String,
 }
 
-const STEP_CAP: usize = 24;
+const STEP_CAP: usize = 96;
 
 /// schedule: Some(k) = k single steps, then execute(); None = single steps only
 fn drive(c: &Cfg, k: Option<usize>, may_loop: bool) -> Result<Final, crate::emu::PanicInfo> {
@@ -369,6 +369,10 @@ fn gen(maxlen: usize) -> impl Fn(&mut EnumCtx) + Sync {
                             let mut viol: Vec<(String, String)> = vec![];
                             // (1) schedules
                             let reference = drive(&c, None, may_loop);
+                            // a run that is still going at the step cap (nested call/ret patterns
+                            // grow exponentially) is treated like an unbounded loop: execute()
+                            // is only called when a limit ends it
+                            let may_loop = may_loop || matches!(&reference, Ok(r) if r.result == "Ok(true)");
                             let mut finals = vec![];
                             for k in 0..=len + 1 {
                                 finals.push((k, drive(&c, Some(k), may_loop)));
